@@ -12,6 +12,7 @@ loaded point vs the loaded values, all five families, after load / refinement / 
 import os
 
 import gridlib as gl
+import rltie
 import vlib
 
 LEVEL = "proof"
@@ -26,6 +27,8 @@ TRUSTED = [
     "RuleLocal basis functions; Global/Sequence/Wavelet/Fourier mechanisms are NOT modelled: for them only the statement is evaluated on the implementation",
     "the hypotheses of the reproduction theorem (unit diagonal, zero outside the visited ancestors, topological order) are PROVED for every parent-complete "
     "set of the binary rules (all orders, dimensions); for incomplete sets and the order-0 rule they are checked by the extracted certificate on every grid the run visits",
+    "translator translator/rulelocal.py (clang JSON AST of tsgRuleLocalPolynomial.hpp / tsgMathUtils.hpp -> coq/gen/RuleLocalGen.v; rules R1-R6 in the generated header; stops on unknown shapes): "
+    "the integer hierarchy functions are regenerated on every run and proved equal to Model/RuleLocal.v for all non-negative points (Props/Properties_RuleLocalGen.v)",
 ]
 
 TOL = {"global": 1e-9, "sequence": 1e-9, "localp": 1e-11, "wavelet": 1e-8, "fourier": 1e-9}
@@ -154,6 +157,7 @@ def expand_deliveries(r, drv, wd, specs, scripts):
 def run(res, tier, seed, replay_script=None):
     props = vlib.coq_props(PID)
     vlib.proof_coverage(res, PID, props, "cd coq && make Props/Properties_C01.vo && coqc -Q . TV Props/Properties_C01.v", TRUSTED)
+    rl_break = rltie.run(res, PID)      # the RuleLocal integer functions re-translated from the header and re-proved equal to the model
     ok_ext, elog = vlib.coq_make(["Extract/ExtractCoreFast.vo"])
     proof_broken = (not props["ok"]) or bool(res.coverage["forbidden_tokens"])
     runner = vlib.ocaml_runner("corefast") if ok_ext else None
@@ -351,6 +355,7 @@ def run(res, tier, seed, replay_script=None):
     if mism and not res.violations:
         res.violation("correspondence", "model and implementation disagree on %d local grids, e.g. %s" % (len(mism), mism[0][:300]),
                       {"kind": "correspondence-break", "correspondence": "Model.LocalGrid.surpluses/evalAt/hier_cert vs GridLocalPolynomial", "examples": mism[:10]}, no_input=True)
+    rltie.report(res, rl_break)
     if proof_broken and not res.violations:
         res.violation("proof", "proof obligations of Properties_C01.v no longer check (%d/%d) %s" % (props["discharged"], props["obligations"], res.coverage["forbidden_tokens"][:2]),
                       {"kind": "proof-break", "theorems": props["theorems"], "log": props["log"][-3000:]}, no_input=True)
